@@ -1,5 +1,5 @@
 """Worker: runs a shard of case specs for one property, sequentially, in this process."""
-from . import boot  # noqa: F401
+from . import boot
 import importlib
 import json
 import os
@@ -28,6 +28,22 @@ def run_spec(mod, spec, timeout=120):
     except BaseException as e:
         res = {"inconclusive": "harness error: %s: %s" % (type(e).__name__, str(e)[:300]),
                "trace": traceback.format_exc()[-3000:], "violations": []}
+        # an exception that was raised INSIDE the library under test and came out of a call the harness made
+        # (on the unchanged tree no case ends this way) is the library failing, not the harness: a violation.
+        # An exception raised in harness code itself (e.g. a private attribute that no longer exists) stays
+        # a harness error = inconclusive.
+        try:
+            tb = traceback.extract_tb(e.__traceback__)
+            inner = tb[-1] if tb else None
+            src = os.path.join(boot.REPO_SRC, "wormhole") + os.sep
+            from wormhole.errors import WormholeError
+            if inner is not None and inner.filename.startswith(src) and not isinstance(e, WormholeError):
+                where = "%s:%s" % (inner.filename[len(src):], inner.name)
+                res = {"violations": [{"key": "%s/library-raised-into-harness/%s/%s" % (mod.PID, type(e).__name__, where),
+                                       "msg": "%s raised from %s line %d: %s" % (type(e).__name__, where, inner.lineno, str(e)[:200]),
+                                       "witness": {"spec": spec, "trace": traceback.format_exc()[-2500:]}}]}
+        except Exception:
+            pass
     finally:
         signal.alarm(0)
     res.setdefault("violations", [])
